@@ -145,7 +145,15 @@ def save_results_info():
         if isinstance(n, ast.Assign) and unparse(n.targets[0]) == "ext":
             if unparse(n.value) in ("os.path.splitext(filename)[1].lstrip('.')", "os.path.splitext(filename)[1][1:]"):
                 how = "os.path.splitext of the path: last component only (= path_ext)"
-    return {"extensions_mentioned": exts, "extension_taken_from": how}
+    copy_how = "not recognised"
+    try:
+        sk = find_function(mod, "save_kwargs", cls="FlowSampler")
+        for n in ast.walk(sk):
+            if isinstance(n, ast.Assign) and unparse(n.targets[0]) == "d":
+                copy_how = unparse(n.value)
+    except Declined as e:
+        copy_how = f"declined: {e}"
+    return {"extensions_mentioned": exts, "extension_taken_from": how, "save_kwargs_copies_with": copy_how}
 
 
 if __name__ == "__main__":
